@@ -18,7 +18,7 @@ def step (_ : Unit) (ws : List String) : Unit × String :=
   | ["restart", _] => ((), "restarted ready applied=* next=*")
   | ["crash", _] => ((), "restarted ready applied=* next=*")
   | ["dump"] => ((), "dump L=* F=* R=*")
-  | ["dumpn"] => ((), "dumpn behind=* L=* N=*")
+  | ["dumpn"] => ((), "dumpn behind=* LM=* NM=* L=* N=*")
   | ["install", _, _] => ((), "install *")
   | ["catchup", _] => ((), "catchup ok")
   | _ => ((), "bad-op")
@@ -72,6 +72,8 @@ def specStep (s : SpecSt) (ws : List String) : SpecSt × String :=
       let strip (d : String) : String := ";".intercalate ((d.splitOn ";").filter fun p => !p.startsWith "la=" && !p.startsWith "ll=")
       let l := strip (field ans "L"); let nn := strip (field ans "N")
       if field ans "behind" != "0" then (s0, "-")      -- the joiner has not been sent everything yet: nothing to compare
+      else if field ans "LM" != field ans "NM" then
+        (s0, s!"spec FAIL the node caught up by snapshot installation holds membership {field ans "NM"}, the leader {field ans "LM"} (C08)")
       else if l == nn then (s0, "spec ok")
       else (s0, "spec FAIL the node caught up by snapshot installation does not serve the leader's data (C08)")
     | ["dump"] =>
